@@ -489,7 +489,11 @@ def value_expr(path: Path, index: int, expr, depth: int = 6, keep_clock: bool = 
             # above); `a, b = x, y` was split element-wise by the interpreter
             if keep_clock and fn is not None and is_current_time(value, store.fn):
                 return node
-            if _mutated_between(path, pos, index, node.id):
+            if isinstance(value, ast.Attribute) and _dotted_text(value):
+                # an alias: the object the attribute held when the alias was taken (the
+                # position goes to ``trace``), however that object is mutated since
+                pass
+            elif _mutated_between(path, pos, index, node.id):
                 return node  # a container filled in place: not its initial literal
             if trace is not None:
                 trace.append(pos)  # the value was read at this position
@@ -531,6 +535,25 @@ def _mutated_between(path: Path, start: int, stop: int, name: str) -> bool:
             return True
         if event.kind in ('store', 'del') and isinstance(node, ast.Subscript) and \
                 isinstance(node.value, ast.Name) and node.value.id == name:
+            return True
+    return False
+
+
+def _dotted_text(expr):
+    parts = []
+    while isinstance(expr, ast.Attribute):
+        parts.append(expr.attr)
+        expr = expr.value
+    if isinstance(expr, ast.Name):
+        return '.'.join([expr.id] + parts[::-1])
+    return None
+
+
+def _rebound_between(path: Path, start: int, stop: int, dotted: str) -> bool:
+    attr = dotted.rsplit('.', 1)[-1]
+    for event in path.events[start + 1:min(stop, len(path.events))]:
+        if event.kind in ('store', 'del') and isinstance(event.node, ast.Attribute) and \
+                event.node.attr == attr:
             return True
     return False
 
